@@ -34,8 +34,12 @@ func judgeSheetCase(c SheetCase) vdrv.Verdict {
 		devs = cssgen.Devices[:1]
 	}
 	v := judgeSheet(c.CSS, c.Cfg, c.Single, devs)
-	if !v.OK && os.Getenv("VERIF_C12_NOKNOWN") == "" { // the variable is a debugging aid for trying out fixes
-		v.Known = knownSignature(c)
+	if !v.OK {
+		if os.Getenv("VERIF_C12_NOKNOWN") == "" {
+			v.Known = knownSignature(c)
+		} else { // debugging aid for trying out fixes: report everything, say which signature would have matched
+			v.Detail = "[signature: " + knownSignature(c) + "] " + v.Detail
+		}
 	}
 	v.Classes = dedupe0(v.Classes)
 	return v
